@@ -681,6 +681,14 @@ class NetworkServiceAccessPoint(ServiceAccessPoint, Server, DebugContents):
 
             if _debug: NetworkServiceAccessPoint._debug("    - no router info found")
 
+            # hold on to the packet, it is sent along when a router to the
+            # network answers (see NetworkServiceElement.IAmRouterToNetwork)
+            if dnet in self.pending_nets:
+                if _debug: NetworkServiceAccessPoint._debug("    - already waiting for path")
+                self.pending_nets[dnet].append(newpdu)
+                return
+            self.pending_nets[dnet] = [newpdu]
+
             # try to find a path to the network
             xnpdu = WhoIsRouterToNetwork(dnet)
             xnpdu.pduDestination = LocalBroadcast()
